@@ -66,8 +66,14 @@ void encode_offset(struct instr *instrc) {
       (instrc->opd[1].reg & MODE_MASK) == noext8)
     return;
   // set opcode offset
-  if (!TYPE(instrc->key, CONTROL_FLOW) && !instrc->keyword.is_byte)
+  if (!TYPE(instrc->key, CONTROL_FLOW) && !instrc->keyword.is_byte) {
     instrc->op_offset = get_opcode_offset(instrc);
+    // the size keyword of a memory operand decides, not its address registers
+    if (instrc->mem_disp &&
+        (instrc->keyword.is_word || instrc->keyword.is_dword ||
+         instrc->keyword.is_qword))
+      instrc->op_offset = 1;
+  }
 }
 
 /**
